@@ -86,17 +86,34 @@
         let (mut cases, mut fails, mut solved, mut infeasible) = (0u64, 0u32, 0u64, 0u64);
         let mut distinct: std::collections::HashSet<String> = std::collections::HashSet::new();
         let cmps = [Comparison::LessOrEqual, Comparison::GreaterOrEqual, Comparison::Equal];
-        for round in 0..220 {
+        // pinned models (independent of the seed): inputs of repaired defects and their neighbours.  0f3a8ac: bound inference narrows a Boolean to one
+        // value / an integer range to an interval without an integral point; the lowering must not rely on that unenforced range.
+        let abs_le0 = |t: T| C::Cmp(T::Abs(bx(t)), Comparison::LessOrEqual, T::N(0.0));
+        let pinned: Vec<(Vec<C>, T, OptimizationType)> = vec![
+            (vec![abs_le0(T::Sub(bx(T::V(2)), bx(T::N(1.0))))], T::V(2), OptimizationType::Min),                                   // abs{p - 1} <= 0, min p
+            (vec![abs_le0(T::Sub(bx(T::Mul(bx(T::N(2.0)), bx(T::V(0)))), bx(T::N(1.0))))], T::V(0), OptimizationType::Min),       // abs{2a - 1} <= 0: no integer
+            (vec![abs_le0(T::Add(bx(T::Mul(bx(T::N(2.0)), bx(T::V(1)))), bx(T::N(1.0))))], T::V(1), OptimizationType::Max),       // abs{2b + 1} <= 0: no integer
+            (vec![abs_le0(T::V(3))], T::Add(bx(T::V(3)), bx(T::V(0))), OptimizationType::Max),                                       // abs{q} <= 0, max q + a
+            (vec![abs_le0(T::Sub(bx(T::Add(bx(T::V(2)), bx(T::V(3)))), bx(T::N(2.0))))], T::Add(bx(T::V(2)), bx(T::V(3))), OptimizationType::Min), // abs{p + q - 2} <= 0
+            (vec![C::Cmp(T::Max(vec![T::Mul(bx(T::N(2.0)), bx(T::V(0))), T::N(1.0)]), Comparison::LessOrEqual, T::N(1.0)), abs_le0(T::Sub(bx(T::Mul(bx(T::N(2.0)), bx(T::V(0)))), bx(T::N(1.0))))], T::V(0), OptimizationType::Max),
+        ];
+        for round in 0..(220 + pinned.len()) {
             // two integers in small ranges and two Booleans
             let vars: Vec<(String, VariableType)> = vec![("a".to_string(), VariableType::IntegerRange(0, 3)), ("b".to_string(), VariableType::IntegerRange(-2, 2)), ("p".to_string(), VariableType::Boolean), ("q".to_string(), VariableType::Boolean)];
             let mut cons: Vec<C> = vec![];
+            let (obj_t, dir);
+            if round >= 220 {
+                let (pc, po, pd) = &pinned[round - 220];
+                cons = pc.clone(); obj_t = po.clone(); dir = pd.clone();
+            } else {
             for _ in 0..(1 + r.next(3)) {
                 if r.next(3) == 0 { cons.push(C::Logic(logic(&mut r, &[2, 3], 2))); }
                 else { let k = [0.0, 1.0, 2.0, 3.0, -1.0][r.next(5)]; cons.push(C::Cmp(term(&mut r, 2, 2), cmps[r.next(3)].clone(), T::N(k))); }
             }
             if round % 5 == 0 { cons.push(C::Cmp(T::Add(bx(T::V(0)), bx(T::V(2))), Comparison::LessOrEqual, T::N(3.0))); }
-            let obj_t = T::Add(bx(term(&mut r, 2, 1)), bx(T::Mul(bx(T::N([1.0, 2.0, 3.0][r.next(3)])), bx(T::V(2 + r.next(2))))));
-            let dir = if r.next(2) == 0 { OptimizationType::Max } else { OptimizationType::Min };
+            obj_t = T::Add(bx(term(&mut r, 2, 1)), bx(T::Mul(bx(T::N([1.0, 2.0, 3.0][r.next(3)])), bx(T::V(2 + r.next(2))))));
+            dir = if r.next(2) == 0 { OptimizationType::Max } else { OptimizationType::Min };
+            }
             let m = M { vars, obj: Some((dir.clone(), obj_t.clone())), cons };
             let src = source(&m);
             cases += 1;
